@@ -123,6 +123,31 @@ func genDispatch() {
 		if len(loop) == 1 && loop[0] == "none" {
 			problem("%s: %s: no dispatch loop found", d.file, d.fn)
 		}
+		// canonical names: the queue the IPv4-target workers read is Q4, the other one Q6 (as the start loop pairs them), the parsed
+		// target address is dst: a renamed variable is the same dispatcher
+		if len(start) == 1 && strings.HasPrefix(start[0], "if ") {
+			var c, a, b string
+			if i := strings.Index(start[0], " then "); i > 0 {
+				c = start[0][3:i]
+				rest := start[0][i+6:]
+				if j := strings.Index(rest, " else "); j > 0 {
+					a, b = rest[:j], rest[j+6:]
+				}
+			}
+			if a != "" && b != "" && a != b {
+				if k := strings.Index(c, ".To4()"); k > 0 {
+					c = "dst" + c[k:]
+				}
+				start[0] = "if " + c + " then Q4 else Q6"
+				for i, x := range loop {
+					if strings.HasPrefix(x, "if ") {
+						x = strings.Replace(x, " then "+a+" else "+b, " then Q4 else Q6", 1)
+						x = strings.Replace(x, " then "+b+" else "+a, " then Q6 else Q4", 1)
+						loop[i] = x
+					}
+				}
+			}
+		}
 		cl := func(l []string) string {
 			var q []string
 			for _, x := range l {
